@@ -69,6 +69,7 @@ class Calc:
         self._k = 0
         self._G = None
         self.hn_of = {}
+        self._pyth = set()
         self.used = set()
         self._last_hn = None
 
@@ -110,9 +111,11 @@ class Calc:
     # ---------------------------------------------------------------------------------------------
     def gens(self):
         inv = [a['sym'] for a in self.atoms if a['kind'] == 'inv']
-        cos = [a['sym'] for a in self.atoms if a['kind'] == 'cos']
-        rest = [a['sym'] for a in self.atoms if a['kind'] not in ('inv', 'cos')]
-        return cos + inv + rest + list(self.varsym.values())
+        dbl = [a['sym'] for a in self.atoms if a.get('dbl')]
+        cos = [a['sym'] for a in self.atoms if a['kind'] == 'cos' and not a.get('dbl')]
+        rest = [a['sym'] for a in self.atoms if a['kind'] not in ('inv', 'cos') and not a.get('dbl')]
+        inv = [x for x in inv]
+        return dbl + cos + inv + rest + list(self.varsym.values())
 
     def reduce(self, P):
         """(quotients, remainder) of P modulo the current relations"""
@@ -289,12 +292,41 @@ class Calc:
                     f'have {nm} : {a["text"]} = {val} := by\n'
                     f'    rw [show ({s} : ℝ) = 0 from by linear_combination {cert}]; exact {lem}'))
             return
+        if f in ('sin', 'cos') and len(p.free_symbols) >= 1:
+            # double angle: the argument is exactly 2 * q with q the argument of existing sin/cos atoms
+            half = sp.expand(p / 2)
+            for b in list(self.atoms):
+                if b['kind'] in ('sin', 'cos') and b is not a and b.get('argpoly') is not None and sp.expand(b['argpoly'] - half) == 0:
+                    st, ct = f'(Real.sin {b["arg"]})', f'(Real.cos {b["arg"]})'
+                    # make sure both half-angle atoms exist
+                    sa = self.by_text.get(st) or self._atom(st, 'sin', 2)
+                    ca = self.by_text.get(ct) or self._atom(ct, 'cos', 2)
+                    for x, t_ in ((sa, 'sin'), (ca, 'cos')):
+                        x.setdefault('argpoly', half); x.setdefault('arg', b['arg'])
+                    if not self._has_pyth(sa, ca):
+                        self._pyth.add((sa['sym'], ca['sym']))
+                        self._relation(sa['sym'] ** 2 + ca['sym'] ** 2 - 1, lambda nm, sa=sa, ca=ca: (
+                            f'have {nm} : {sa["text"]} ^ 2 + {ca["text"]} ^ 2 = 1 := Real.sin_sq_add_cos_sq _'))
+                    cert = self.prove_zero(p - 2 * half)
+                    a['dbl'] = True
+                    self._G = None
+                    if f == 'sin':
+                        self._relation(a['sym'] - 2 * sa['sym'] * ca['sym'], lambda nm, sa=sa, ca=ca, b=b: (
+                            f'have {nm} : {a["text"]} = 2 * {sa["text"]} * {ca["text"]} := by\n'
+                            f'    rw [show ({s} : ℝ) = 2 * {b["arg"]} from by linear_combination {cert}]; exact Real.sin_two_mul _'))
+                    else:
+                        self._relation(a['sym'] - (2 * ca['sym'] ** 2 - 1), lambda nm, ca=ca, b=b: (
+                            f'have {nm} : {a["text"]} = 2 * {ca["text"]} ^ 2 - 1 := by\n'
+                            f'    rw [show ({s} : ℝ) = 2 * {b["arg"]} from by linear_combination {cert}]; exact Real.cos_two_mul _'))
+                    break
         if f in ('sin', 'cos'):
+            a['argpoly'], a['arg'] = p, s
             other = 'cos' if f == 'sin' else 'sin'
             ot = f'(Real.{other} {s})'
-            if ot in self.by_text:
+            if ot in self.by_text and not self._has_pyth(a if f == 'sin' else self.by_text[ot], a if f == 'cos' else self.by_text[ot]):
                 sa = a if f == 'sin' else self.by_text[ot]
                 ca = a if f == 'cos' else self.by_text[ot]
+                self._pyth.add((sa['sym'], ca['sym']))
                 self._relation(sa['sym'] ** 2 + ca['sym'] ** 2 - 1, lambda nm: (
                     f'have {nm} : {sa["text"]} ^ 2 + {ca["text"]} ^ 2 = 1 := Real.sin_sq_add_cos_sq _'))
         if f == 'exp':
@@ -324,6 +356,9 @@ class Calc:
                 if self.hn_of.get(tag[3:]) in self.used:
                     out.append(text)
         return out
+
+    def _has_pyth(self, sa, ca):
+        return (sa['sym'], ca['sym']) in self._pyth
 
     def generalize_lines(self):
         """generalize atoms, largest first, so nested atoms are matched in raw form"""
